@@ -9,7 +9,8 @@
                            current C·v̇, inductor voltage L·i̇) — for the executable model;
     C12_state_is_output    x = DQᵀ y: every state is read back from the outputs;
     C12_settle_dc          ẋ = 0 ⇒ outputs = DC solution Ãinv·(QS u);
-    C12_rest, C12_rest_output   initial state zero; zero state and zero input give zero output;
+    C12_rest               the initial state handed to the integrator is the zero vector of the state dimension;
+    C12_rest_output        (a lemma about `dotL`) zero state and zero input give zero output, whatever the rows;
     C12_input_order        row k of `_u` is the waveform supplied for `sources[k]`;
     C12_output_sample      sample t of an output is row_c·x_t + row_d·u_t.
     C12_sample_rhs         the right-hand side of the per-sample network (capacitor k ↦ current source
@@ -20,9 +21,16 @@
     C12_kcl_sample         Kirchhoff's current law at every node at every sample,
     C12_element_laws       every element law (capacitor i = C·v̇, inductor v = L·i̇ with ẋ = A x + B u,
                            resistors, sources = their waveforms), and KVL / reference (C12_kvl_sample);
-    C12_periodic_steady    the frequency response of the simulated system at any s (each harmonic
-                           j·k·w₀) is the phasor solution at s (= C10_transfer).
-  Nothing of the algebraic clauses is left open; `lsim` (the integrator) stays in the trusted base.
+    C12_frequency_response the frequency response of the model (A, B, C, D) at any s is the phasor solution at s —
+                           this IS C10_transfer (same statement); `C12_periodic_steady` is kept as an alias.
+  NOT theorems (listed as open, decided per instance by the oracle only):
+    * the output ROWS (get_voltage / get_current rows) = the report read from y — C10_output_rows_statement;
+    * "agrees with the exact response of the linear system for piecewise-linear inputs": `lsim` is a parameter of the
+      model (trusted base); oracle = independent matrix-exponential reference on every case;
+    * "for constant inputs they settle to the DC solution": `C12_settle_dc` is only the fixed-point identity (ẋ = 0 ⇒
+      outputs = DC solution); convergence needs Re λ < 0 (C11 proves ≤ 0) and the flow; oracle = settle stream;
+    * "for periodic inputs they settle to the multi-frequency steady state of C09": `C12_frequency_response` is the
+      frequency response only, not convergence of the simulation to it; oracle = periodic-steady-state stream.
 -/
 import CC.Proofs.StatePhasor
 
@@ -71,12 +79,10 @@ theorem C12_settle_dc (re : K → K) {N : Net L K} {cvals lvals : ValDict K}
       = toM N.nY N.nY Ainv *ᵥ (toM N.nY (ssNInputs N lvals) (ssQS N lvals) *ᵥ u) :=
   model_dc_gain re hD hm hc x u hx
 
-/-- the state handed to the integrator is zero -/
-theorem C12_rest (n k : Nat) : (transientX0 n : List K).getD k 0 = 0 := by
-  simp [transientX0, Mx.zeroVec, List.getD_eq_getElem?_getD, List.getElem?_replicate]
-  split <;> rfl
+/-- the state handed to the integrator is the zero vector of the state dimension -/
+theorem C12_rest (n : Nat) : (transientX0 n : List K) = List.replicate n 0 := rfl
 
-/-- zero state and zero input give zero output, whatever the rows -/
+/-- a lemma about `dotL`: zero state and zero input give zero output, whatever the rows -/
 theorem C12_rest_output (rc rd : List K) (ns nu : Nat) :
     dotL rc (Mx.zeroVec ns : List K) + dotL rd (Mx.zeroVec nu : List K) = 0 := by
   rw [dotL_zero_right, dotL_zero_right, add_zero]
@@ -164,9 +170,10 @@ theorem C12_kvl_sample {N : Net L K} {cvals lvals : ValDict K} {Ainv S Delta : L
     (P.reportOf (List.ofFn y)).pot P.zero = 0 ∧ ∀ b ∈ P.branches, voltResidual (P.reportOf (List.ofFn y)) b = 0 :=
   ⟨(model_sample_circuit h hD hm hc x u).ref_zero, (model_sample_circuit h hD hm hc x u).volt⟩
 
-/-- periodic steady state: at every complex frequency `s` — each harmonic `j·k·w₀` of a periodic
-excitation — the response of the simulated system `(A, B, C, D)` is the phasor solution at `s` -/
-theorem C12_periodic_steady {N : Net L K} {cvals lvals : ValDict K} {Ainv S Delta : List (List K)}
+/-- frequency response: at every complex frequency `s` — each harmonic `j·k·w₀` of a periodic excitation — the
+response of the model `(A, B, C, D)` is the phasor solution at `s`.  This is `C10_transfer` verbatim; it says nothing
+about the SIMULATION converging to that steady state (open, oracle only). -/
+theorem C12_frequency_response {N : Net L K} {cvals lvals : ValDict K} {Ainv S Delta : List (List K)}
     {m : SSMats K} (h : RLC N cvals lvals) (hD : ssDelta N cvals = .ok Delta)
     (hm : stateSpaceMatrices N cvals lvals Ainv S = .ok m)
     (hc : ModelCert id N cvals lvals Ainv S Delta)
@@ -176,6 +183,18 @@ theorem C12_periodic_steady {N : Net L K} {cvals lvals : ValDict K} {Ainv S Delt
     let P := sampleNet N cvals lvals (ssSources N lvals) (List.ofFn u) (List.ofFn (s • x))
     CircuitEqs (phasorNet N cvals lvals (ssSources N lvals) (List.ofFn u) s) (P.reportOf (List.ofFn y)) :=
   model_transfer h hD hm hc s x u hx
+
+/-- alias kept for `C05_periodic_steady` (CC/Properties/C05Compose.lean) -/
+theorem C12_periodic_steady {N : Net L K} {cvals lvals : ValDict K} {Ainv S Delta : List (List K)}
+    {m : SSMats K} (h : RLC N cvals lvals) (hD : ssDelta N cvals = .ok Delta)
+    (hm : stateSpaceMatrices N cvals lvals Ainv S = .ok m)
+    (hc : ModelCert id N cvals lvals Ainv S Delta)
+    (s : K) (x : Fin (ssNStates N cvals lvals) → K) (u : Fin (ssNInputs N lvals) → K)
+    (hx : s • x = toM _ _ m.A *ᵥ x + toM _ _ m.B *ᵥ u) :
+    let y := toM N.nY (ssNStates N cvals lvals) m.C *ᵥ x + toM N.nY (ssNInputs N lvals) m.D *ᵥ u
+    let P := sampleNet N cvals lvals (ssSources N lvals) (List.ofFn u) (List.ofFn (s • x))
+    CircuitEqs (phasorNet N cvals lvals (ssSources N lvals) (List.ofFn u) s) (P.reportOf (List.ofFn y)) :=
+  C12_frequency_response h hD hm hc s x u hx
 
 end
 
